@@ -137,7 +137,7 @@ func checkC15(rc *RunCtx) {
 	model := LoadSolModel(RepoDir() + "/evm/contracts")
 	rc.Sample(map[string]interface{}{"contract_model": model.String()})
 	// stateful part: the digests the chain itself produces along the shared skeletons (+ deviations)
-	if rc.Replay == nil || rc.Replay.Scenario != "enc" {
+	if rc.Replay == nil || isSkeleton(rc.Replay.Scenario) {
 		runSkeletons(rc, []Monitor{SnapshotDigestMonitor{model: model}}, kOf(rc), "round", "bridge", "deposit-closing", "dispute-sibling")
 		if rc.Replay != nil {
 			return
